@@ -11,6 +11,7 @@ import (
 	"net"
 	"net/http"
 	"strconv"
+	"strings"
 	"sync"
 	"testing"
 	"time"
@@ -98,6 +99,34 @@ func vfLimitServerCheck(c vfLimitCase) error {
 			return nil
 		}
 		msgs = []proto.Message{first, second}
+	} else if c.Stream == "server-stream" {
+		streamType, method = conformancev1.StreamType_STREAM_TYPE_SERVER_STREAM, "ServerStream"
+		m := &conformancev1.ServerStreamRequest{ResponseDefinition: &conformancev1.StreamResponseDefinition{ResponseData: [][]byte{[]byte("ok")}}}
+		if !vfSizedMessage(m, "request_data", size, c.Zero) {
+			return nil
+		}
+		msgs = []proto.Message{m}
+	} else if strings.HasPrefix(c.Stream, "bidi-") {
+		// bidi-half-first, bidi-half-later, bidi-full-first: which message of the stream has the probed size
+		full := strings.HasPrefix(c.Stream, "bidi-full")
+		streamType, method = conformancev1.StreamType_STREAM_TYPE_HALF_DUPLEX_BIDI_STREAM, "BidiStream"
+		respData := [][]byte{[]byte("ok")}
+		if full {
+			streamType = conformancev1.StreamType_STREAM_TYPE_FULL_DUPLEX_BIDI_STREAM
+			// one response per request (fewer responses than requests is the recorded C02 finding)
+			respData = append(respData, []byte("ok2"))
+		}
+		first := &conformancev1.BidiStreamRequest{ResponseDefinition: &conformancev1.StreamResponseDefinition{ResponseData: respData}, FullDuplex: full}
+		second := &conformancev1.BidiStreamRequest{RequestData: []byte("second")}
+		sized := proto.Message(first)
+		if strings.HasSuffix(c.Stream, "-later") {
+			sized = second
+			first.RequestData = []byte("first")
+		}
+		if !vfSizedMessage(sized, "request_data", size, c.Zero) {
+			return nil
+		}
+		msgs = []proto.Message{first, second}
 	} else {
 		m := &conformancev1.UnaryRequest{ResponseDefinition: &conformancev1.UnaryResponseDefinition{
 			Response: &conformancev1.UnaryResponseDefinition_ResponseData{ResponseData: []byte("ok")}}}
@@ -138,7 +167,11 @@ func vfLimitServerCheck(c vfLimitCase) error {
 		if result.Error != nil {
 			return verifkit.Violf("limit-rejected-at-or-below", "%s was rejected: %v", what, result.Error)
 		}
-		if len(result.Payloads) != 1 || string(result.Payloads[0].Data) != "ok" {
+		wantPayloads := 1
+		if strings.HasPrefix(c.Stream, "bidi-full") {
+			wantPayloads = 2
+		}
+		if len(result.Payloads) != wantPayloads || string(result.Payloads[0].Data) != "ok" {
 			return verifkit.Violf("limit-wrong-response", "%s: unexpected response %v", what, result.Payloads)
 		}
 		return nil
@@ -160,7 +193,7 @@ func TestVerifC19LimitServer(t *testing.T) {
 				Limit:    rapid.SampledFrom([]int{1024, 1024, 200 * 1024, 3000, 70000}).Draw(t, "limit"),
 				Delta:    rapid.SampledFrom([]int{-1, 0, 0, 1, 1, 2, -7, 50}).Draw(t, "delta"),
 				Protocol: int32(rapid.IntRange(1, 3).Draw(t, "protocol")), Compression: int32(rapid.IntRange(1, 6).Draw(t, "compression")),
-				Stream: rapid.SampledFrom([]string{"unary", "unary", "client-stream"}).Draw(t, "stream"), Zero: rapid.Bool().Draw(t, "zero"),
+				Stream: rapid.SampledFrom([]string{"unary", "unary", "client-stream", "server-stream", "bidi-half-first", "bidi-half-later", "bidi-full-first"}).Draw(t, "stream"), Zero: rapid.Bool().Draw(t, "zero"),
 			}
 		},
 		Check: vfLimitServerCheck,
